@@ -55,7 +55,7 @@ def py_float(p, cse, k, e, scenario):
             dump(cur)
             for key in keys:
                 for i, r in enumerate(p.s_readings(key)):
-                    out[f"innov_{key}_{r}"] = float(ekf.innovations[key][i, 0])
+                    out[f"innov_{key}_{r}"] = float(ekf.innovations[key][i, 0]) if key in ekf.innovations else float("nan")
             return out
 
     return pyh.gate_guard(go)
@@ -296,6 +296,80 @@ def _concrete_compare(part, p, cf, cse, k, scn, key_base, info, envs, reason):
     part.d["inconclusive"].append(f"{key_base}/{scn}: {reason}; no concrete disagreement found")
 
 
+def _group_close(a, b, names, rel=1e-7):
+    """Entries of one output group (covariance / state / innovations) agree relative to the group's largest magnitude."""
+    bad = []
+    for prefix in ("P_", "x_", "innov_"):
+        g = [nm for nm in names if nm.startswith(prefix)]
+        if not g:
+            continue
+        scale = max([abs(a[nm]) for nm in g] + [abs(b[nm]) for nm in g] + [1e-300])
+        bad += [nm for nm in g if not (abs(a[nm] - b[nm]) <= rel * scale)]
+    return bad
+
+
+def task_regimes(p, cse, tier, seed):
+    """Python filter vs generated C++ filter at valid inputs in value regimes (pyh.regime_envs); the model's noise is
+    part of the generated code, so the tiny-covariance regime uses a twin of the program with all noise scaled by 2^-46."""
+    part = Part()
+    part.program(p.id)
+    part.fn("python.ExtendedKalmanFilter.process_model", "python.ExtendedKalmanFilter.sensor_model", "templates/process_model.cpp", "templates/sensor_model.hpp")
+    rng = random.Random(seed + 919)
+    sc = 2.0 ** -46
+    twins = {"normal": p, "tiny": CP.with_noise(p, process={c: v * sc for c, v in p.process_noise.items()}, sensor={k_: {r: v * sc for r, v in rs.items()} for k_, rs in p.sensor_noise.items()}, pid=p.id + "-tiny-noise")}
+    for tw, q in twins.items():
+        try:
+            cf = CppFilter(q, ekf=True, cse=cse, k=None, history=False)
+            cf.__enter__()
+        except Exception as ex:
+            part.harness_error(f"{q.id}: generation failed: {type(ex).__name__}: {ex}")
+            continue
+        try:
+            try:
+                cf.compile_concrete()
+            except build.BuildError as ex:
+                path = write_replay(PID, {"key": q.id + "/compile", "info": {"program": p.id, "cse": cse, "k": None, "kind": "regime", "twin": tw}, "inputs": {}, "compiler_log": ex.log[-3000:]})
+                part.violation(q.id + "/compile", "generated C++ filter does not compile", path)
+                continue
+            scns = ["predict"] + [f"update:{k_}" for k_ in q.s_sensors()]
+            for scn in scns:
+                key = scn.split(":", 1)[1] if ":" in scn else None
+                for label, e in pyh.regime_envs(q, rng, readings_for=key, noise_in_program=True):
+                    if (label == "tiny-cov") != (tw == "tiny"):
+                        continue
+                    kb = f"{q.id}/cse={int(cse)}/{scn}/regime={label}"
+                    if key is not None:
+                        from .c05 import spec_float as _upd_spec
+
+                        try:
+                            if np.linalg.cond(_upd_spec(q, key, e)["S"]) > 1e6:
+                                continue  # scale, not conditioning, is what the regimes are about
+                        except (np.linalg.LinAlgError, ZeroDivisionError, ValueError, OverflowError):
+                            continue
+                    try:
+                        a = py_float(q, cse, None, e, scn)
+                    except pyh.GateRejected:
+                        continue
+                    except (np.linalg.LinAlgError, ZeroDivisionError, OverflowError, FloatingPointError):
+                        continue
+                    try:
+                        b, _, _ = cf.run_concrete(scn, _cpp_inputs(q, e))
+                    except build.BuildError:
+                        continue
+                    names = [nm for nm in a if nm in b]
+                    if not all(np.isfinite(b[nm]) for nm in names) or not all(np.isfinite(a[nm]) for nm in names if not nm.startswith("innov_")):
+                        continue
+                    bad = _group_close(a, b, names)  # a missing (nan) stored innovation on the python side counts as a disagreement
+                    part.record(Q("sat" if bad else "unsat", None, 0.0, ""), f"{kb}: python == c++ relative to the output group's magnitude (concrete replay)")
+                    if bad:
+                        path = write_replay(PID, {"key": kb, "info": {"program": p.id, "cse": cse, "k": None, "kind": "regime", "twin": tw, "scenario": scn}, "inputs": e, "python": a, "cpp": b})
+                        part.violation(kb, f"python and C++ disagree on {bad[:4]} in the {label} regime at {e}: python {[a[nm] for nm in bad[:4]]} c++ {[b[nm] for nm in bad[:4]]}", path)
+                        break
+        finally:
+            cf.__exit__(None, None, None)
+    return part.d
+
+
 def configs(tier, seed):
     if tier == "quick":
         return [(CP.P3(), True, 4.0), (CP.P3().restrict(control=False, calibration=False), False, None), (CP.P1(), True, None), (CP.P8(), True, 3.0), (CP.P17(), True, None)]
@@ -320,6 +394,8 @@ def run(tier, seed):
     from . import cfgrb
 
     tasks = [(task, (p, cse, k, tier, seed)) for p, cse, k in cfgs] + [(cfgrb.task, (PID, *c, tier, seed)) for c in cfgrb.combos(tier)]
+    rps = [CP.P8(), CP.P1()] if tier == "quick" else [CP.P8(), CP.P1(), CP.P3(), CP.P13(), CP.P17()]
+    tasks += [(task_regimes, (p, True, tier, seed)) for p in rps]
     for d in pmap(_dispatch, tasks):
         rep.merge(d)
     rep.bounds = {"configurations": [f"{p.id}/cse={int(c)}/k={k}" for p, c, k in cfgs], "inputs": "all real dt/state/control/calibration/readings, all symmetric P; noise = the program's concrete numbers", "outside": "floating-point rounding; real Eigen"}
@@ -343,7 +419,14 @@ def replay(path):
     ps = {}
     for p, _, _ in configs("thorough", int(r.get("seed", 0))) + configs("quick", 0):
         ps[p.id] = p
+    for p in CP.catalogue():
+        ps.setdefault(p.id, p)
     p = ps[info["program"]]
+    if info.get("kind") == "regime":
+        d = task_regimes(p, info["cse"], "quick", int(r.get("seed", 0)))
+        print([v["what"][:300] for v in d["violations"]])
+        print("REPRODUCED" if d["violations"] else "not reproduced")
+        return 1 if d["violations"] else 0
     with CppFilter(p, ekf=True, cse=info["cse"], k=info["k"]) as cf:
         if "compiler_log" in r:
             try:
